@@ -1,6 +1,6 @@
 (* C06 — Pool time-lock: nothing is withdrawable before lock end, all of it once after.
    Statements only; every proof is a reference to a lemma of C4E.VestProofs. *)
-From C4E Require Import Base Vest VestFrame VestProofs.
+From C4E Require Import Base Vest VestFrame VestProofs PoolsKept.
 Open Scope Z_scope.
 
 (* before a pool's lock end nothing can be withdrawn from it, for every pool and every time *)
@@ -89,3 +89,11 @@ Example C06_example :
   | None => False
   end.
 Proof. vm_compute. repeat split. Qed.
+
+(* a pool, once stored, is stored for ever: over any history of vesting messages (any signers, any payloads, accepted or rejected)
+   and time steps, the names of an owner's pools at any point are a prefix of the names afterwards — so what a pool still locks
+   always has a record standing for it *)
+Theorem C06_stored_pools_are_never_dropped :
+  forall ops w o, exists extra, pool_names (run w ops) o = pool_names w o ++ extra.
+Proof. exact run_keeps_pool_names. Qed.
+Print Assumptions C06_stored_pools_are_never_dropped.
